@@ -20,7 +20,8 @@ def spec(chk):
                    random=100 if q else 1000),
               dict(name="merge1", acts=["SetV", "Expire", "Merge"], srckeys=(1,), depth=5, edge_sample=0.3 if q else None, deep_depth=None if q else 6,
                    eoc=True, random=100 if q else 1000),
-              dict(name="mergetok", acts=["SetV", "Expire", "MergeTok"], depth=6 if q else 7, eoc=True, random=100 if q else 500)],
+              dict(name="mergetok", acts=["SetV", "Expire", "MergeTok"], depth=6 if q else 7, edge_sample=0.1 if q else 0.3,
+                   edge_probs={"MergeTok": 1.0}, eoc=True, random=100 if q else 500)],
         invs=INVS, props=PROPS, footprint=FOOTPRINT,
         nontrivial=lambda frm, act: act["a"] in ("Merge", "MergeTok"))
 
